@@ -798,12 +798,151 @@ def emit_fill(res):
     return "\n".join(lines)+"\n"
 
 
+# ---------------------------------------------------------------- the traceback loops over the compact array
+TRACE_FUNCS=["dtw_best_path","dtw_best_path_customstart","dtw_best_path_isclose","dtw_best_path_affinity","dtw_best_path_prob"]
+
+def trace_func_body(txt,name):
+    m=re.search(r"^idx_t\s+%s\s*\(([^;{}]*?)\)\s*\{"%re.escape(name),txt,flags=re.M|re.S)
+    if not m: raise TranslateError("function %s not found"%name)
+    st=m.end()-1
+    return txt[st:match_brace(txt,st)+1]
+
+IDX={"ri_width+wpsi":("cur",0),"ri_width+wpsi-1":("cur",-1),"ri_widthp+wpsi-1":("prev",-1),"ri_widthp+wpsi":("prev",0),"ri_widthp+wpsi+1":("prev",1)}
+
+def leaves(block):
+    """innermost brace blocks that move rip/cip"""
+    out=[]
+    i=0
+    while True:
+        j=block.find("{",i)
+        if j<0: break
+        e=match_brace(block,j)
+        inner=block[j+1:e]
+        if "{" in inner:
+            out+=leaves(inner)
+        elif re.search(r"\b(rip|cip)\s*(--|-=)",inner):
+            out.append(inner)
+        i=e+1
+    return out
+
+def analyse_trace():
+    txt=strip_comments(open(os.path.join(REPO,"src/DTAIDistanceC/DTAIDistanceC/dd_dtw.c")).read())
+    res=[]
+    for fn in TRACE_FUNCS:
+        body=trace_func_body(txt,fn)
+        loops=[]
+        for m in re.finditer(r"while\s*\(\s*rip\s*>\s*([^&]+?)\s*&&\s*cip\s*>\s*0\s*\)\s*\{",body):
+            b=m.end()-1; e=match_brace(body,b)
+            loops.append((m.group(1).strip(),body[b+1:e]))
+        if [g for g,_ in loops]!=["p.ri3","p.ri2","0"]:
+            raise TranslateError("%s: traceback loops with guards %s"%(fn,[g for g,_ in loops]))
+        # between the loops nothing may touch wpsi/rip/cip
+        for R,(g,lb) in zip(("D","C","AB"),loops):
+            where="%s region %s"%(fn,R)
+            idx=sorted(set(re.sub(r"\s+","",x) for x in re.findall(r"wps\[([^\]]+)\]",lb)))
+            for x in idx:
+                if x not in IDX: raise TranslateError(where+": index wps[%s] not understood"%x)
+            lv=leaves(lb)
+            lv=[l for l in lv if re.search(r"\b(rip|cip)\s*--",l)]
+            if len(lv)!=3: raise TranslateError(where+": %d move blocks"%len(lv))
+            moves=[]
+            for l in lv:
+                st=[s.strip() for s in l.split(";") if s.strip()]
+                drip=dcip=dw=0; rowptr=0
+                for s in st:
+                    s2=re.sub(r"\s+","",s)
+                    if s2=="rip--": drip-=1
+                    elif s2=="cip--": dcip-=1
+                    elif s2 in ("wpsi--","wpsi=wpsi-1"): dw-=1
+                    elif s2 in ("wpsi++","wpsi=wpsi+1"): dw+=1
+                    elif s2=="ri_width=ri_widthp": rowptr|=1
+                    elif s2=="ri_widthp-=p.width": rowptr|=2
+                    else: raise TranslateError(where+": statement %r in a move block"%s)
+                if (drip!=0) != (rowptr==3): raise TranslateError(where+": row offsets and rip move apart")
+                moves.append((drip,dcip,dw))
+            sig=[(m[0],m[1]) for m in moves]
+            if sig!=[(-1,-1),(0,-1),(-1,0)]: raise TranslateError(where+": move blocks are not (diagonal, left, up): %s"%sig)
+            # which cells are compared: the condition texts
+            conds=[re.sub(r"\s+","",c) for c in re.findall(r"if\s*\(((?:[^(){}]|\([^(){}]*\)|\((?:[^(){}]|\([^(){}]*\))*\))*)\)\s*\{",lb)]
+            used=[x for x in idx if x!="ri_width+wpsi"]
+            offs={}
+            for x in used:
+                row,off=IDX[x]
+                if row=="cur":
+                    if off!=-1: raise TranslateError(where+": current-row read %s"%x)
+                    offs["left"]=off
+            prevs=sorted(IDX[x][1] for x in used if IDX[x][0]=="prev")
+            if len(prevs)!=2 or prevs[1]!=prevs[0]+1: raise TranslateError(where+": previous-row reads %s"%prevs)
+            offs["diag"],offs["up"]=prevs
+            if "left" not in offs: raise TranslateError(where+": no left read")
+            D="wps[ri_widthp+wpsi%s]"%("" if offs["diag"]==0 else "%+d"%offs["diag"])
+            U="wps[ri_widthp+wpsi%s]"%("" if offs["up"]==0 else "%+d"%offs["up"])
+            Lx="wps[ri_width+wpsi-1]"
+            kind="other"
+            for op,name in (("<=","le_pen"),(">=","ge_pen")):
+                c1="%s%s%s+p.penalty&&%s%s%s+p.penalty"%(D,op,Lx,D,op,U)
+                c2="%s%s%s"%(Lx,op,U)
+                if c1 in conds and c2 in conds: kind=name
+            res.append({"fn":fn,"region":R,"diag":offs["diag"],"left":offs["left"],"up":offs["up"],
+                        "w_diag":moves[0][2],"w_left":moves[1][2],"w_up":moves[2][2],"decision":kind})
+    return res
+
+def analyse_trace_init():
+    """dtw_best_path: the slot of the corner cell (l1, l2) computed before the loops"""
+    txt=strip_comments(open(os.path.join(REPO,"src/DTAIDistanceC/DTAIDistanceC/dd_dtw.c")).read())
+    body=trace_func_body(txt,"dtw_best_path")
+    ms=list(re.finditer(r"idx_t\s+ri_width\s*=\s*p\.width\s*\*\s*rip\s*;",body))
+    w=re.search(r"while\s*\(\s*rip\s*>\s*p\.ri3",body)
+    if len(ms)!=1 or not w or w.start()<ms[0].end(): raise TranslateError("dtw_best_path: prologue not found")
+    if not re.search(r"idx_t\s+rip\s*=\s*l1\s*;",body) or not re.search(r"idx_t\s+cip\s*=\s*l2\s*;",body):
+        raise TranslateError("dtw_best_path: rip/cip are not initialised with l1/l2")
+    pre=body[ms[0].end():w.start()]
+    global TRACKED
+    old = TRACKED
+    TRACKED = ("min_ci", "wpsi_start", "wpsi")
+    try:
+        st = exec_block(pre, {}, "dtw_best_path prologue")
+    finally:
+        TRACKED = old
+    if st.get("wpsi") is None: raise TranslateError("dtw_best_path: wpsi not initialised")
+    return st["wpsi"]
+
+def emit_trace(res):
+    lines=["(* GENERATED by tools/translate_c.py from src/DTAIDistanceC/DTAIDistanceC/dd_dtw.c -- do not edit *)",
+           "(* the three loops (regions D, C, A-B) of the traceback routines over the compact warping-paths array *)",
+           "From Coq Require Import ZArith String List.","Import ListNotations.","Open Scope Z_scope.","",
+           "Inductive trace_region := TD | TC | TAB.","",
+           "Record trace_loop := {","  tl_function : string; tl_region : trace_region;",
+           "  tl_diag : Z; tl_left : Z; tl_up : Z;          (* read offsets relative to wpsi: previous row, current row, previous row *)",
+           "  tl_w_diag : Z; tl_w_left : Z; tl_w_up : Z;    (* change of wpsi on a diagonal / left / up move *)",
+           "  tl_decision : string }.","","Definition trace_loops : list trace_loop := ["]
+    rows=[]
+    for r in res:
+        rows.append('  {| tl_function := "%s"; tl_region := T%s; tl_diag := (%d); tl_left := (%d); tl_up := (%d);\n     tl_w_diag := (%d); tl_w_left := (%d); tl_w_up := (%d); tl_decision := "%s" |}'%(
+            r["fn"],r["region"],r["diag"],r["left"],r["up"],r["w_diag"],r["w_left"],r["w_up"],r["decision"]))
+    lines.append(";\n".join(rows)); lines.append("].")
+    lines.append("")
+    lines.append("(* dtw_best_path: wpsi before the loops (rip = l1, cip = l2) *)")
+    lines.append("Definition c_trace_init_wpsi (l2 window ldiff ldiffr ldiffc ri2 ri3 : Z) : Z := %s."%analyse_trace_init())
+    return "\n".join(lines)+"\n"
+
+
 def coq_str_list(xs):
     return "[" + "; ".join('"%s"' % x for x in xs) + "]"
 
 
 def main():
     outdir = sys.argv[1] if len(sys.argv) > 1 else "/verif/coq/gen"
+    try:
+        text = emit_trace(analyse_trace())
+    except (TranslateError, OSError) as exc:
+        print("TRANSLATE-ERROR: translate_c: %s" % exc)
+        sys.exit(2)
+    os.makedirs(outdir, exist_ok=True)
+    p = os.path.join(outdir, "Gen_ctrace.v")
+    old = open(p).read() if os.path.exists(p) else None
+    if old != text:
+        open(p, "w").write(text)
     try:
         text = emit_fill(analyse_fill())
     except (TranslateError, OSError) as exc:
